@@ -46,8 +46,10 @@ Definition set_sites : list site := [
   ((s "sharepoint2text/parsing/extractors/open_office/odf_extractor.py"), (s "<module>"), (65)%Z, UMember);
   ((s "sharepoint2text/parsing/extractors/open_office/odg_extractor.py"), (s "<module>"), (74)%Z, UMember);
   ((s "sharepoint2text/parsing/extractors/open_office/odg_extractor.py"), (s "_extract_images"), (107)%Z, UMember);
-  ((s "sharepoint2text/parsing/extractors/open_office/odp_extractor.py"), (s "<module>"), (172)%Z, UMember);
+  ((s "sharepoint2text/parsing/extractors/open_office/odp_extractor.py"), (s "<module>"), (173)%Z, UMember);
+  ((s "sharepoint2text/parsing/extractors/open_office/odp_extractor.py"), (s "<module>"), (293)%Z, UMember);
   ((s "sharepoint2text/parsing/extractors/open_office/ods_extractor.py"), (s "<module>"), (180)%Z, UMember);
+  ((s "sharepoint2text/parsing/extractors/open_office/ods_extractor.py"), (s "<module>"), (424)%Z, UMember);
   ((s "sharepoint2text/parsing/extractors/open_office/odt_extractor.py"), (s "<module>"), (245)%Z, UMember);
   ((s "sharepoint2text/parsing/extractors/open_office/odt_extractor.py"), (s "_extract_images_from_context"), (482)%Z, UMember);
   ((s "sharepoint2text/parsing/extractors/open_office/odt_extractor.py"), (s "_extract_styles_from_context"), (680)%Z, USorted);
@@ -119,8 +121,8 @@ Definition stream_sites : list stream_site := [
   ((s "sharepoint2text/parsing/extractors/ms_modern/xlsx_extractor.py"), (s "read_xlsx"), (589)%Z, (s "read"));
   ((s "sharepoint2text/parsing/extractors/open_office/odf_extractor.py"), (s "read_odf"), (241)%Z, (s "seek"));
   ((s "sharepoint2text/parsing/extractors/open_office/odg_extractor.py"), (s "read_odg"), (204)%Z, (s "seek"));
-  ((s "sharepoint2text/parsing/extractors/open_office/odp_extractor.py"), (s "read_odp"), (514)%Z, (s "seek"));
-  ((s "sharepoint2text/parsing/extractors/open_office/ods_extractor.py"), (s "read_ods"), (566)%Z, (s "seek"));
+  ((s "sharepoint2text/parsing/extractors/open_office/odp_extractor.py"), (s "read_odp"), (541)%Z, (s "seek"));
+  ((s "sharepoint2text/parsing/extractors/open_office/ods_extractor.py"), (s "read_ods"), (587)%Z, (s "seek"));
   ((s "sharepoint2text/parsing/extractors/open_office/odt_extractor.py"), (s "read_odt"), (779)%Z, (s "seek"));
   ((s "sharepoint2text/parsing/extractors/pdf/pdf_extractor.py"), (s "_open_pdf_reader"), (220)%Z, (s "seek"));
   ((s "sharepoint2text/parsing/extractors/pdf/pdf_extractor.py"), (s "_open_pdf_reader"), (228)%Z, (s "seek"));
